@@ -665,3 +665,6 @@ PROPS["C01"]["rule"] += " One generated loopback route in three carries another 
 
 PROPS["C03"]["rule"] += " RDNSS server lists include addresses with a zone (fe80::53%eth0, ::%eth0, two addresses differing only in the zone): accepted or not, what is built must survive the wire unchanged (finding F23)."
 PROPS["C02"]["rule"] += " Server addresses with a zone are generated among the special spellings and left unjudged (not stated)."
+
+PROPS["C03"]["rule"] += " DNSSL lists include names with an empty label (absolute form example.org., a..b, ., .lan): accepted or not, what is built must survive the wire unchanged (finding F24)."
+PROPS["C02"]["rule"] += " Domain names with an empty label are generated among the special spellings and left unjudged (not stated)."
